@@ -93,6 +93,9 @@ def run(ctx):
         ctx.check(not badk, "R15.1", "%s|records-looked-up-key" % f.name,
                   "the access is recorded for the key that was looked up", f.where(), "; ".join(badk[:2]))
     ctx.floor("R15.1", "read APIs that record accesses directly", n_hit_src, 2)
+    # ---- R15.12 accesses are counted under the hash admission later asks about
+    import c10 as c10__
+    c10__.configured_hash_rule(ctx, "R15.12")
     # ---- R15.11 a read answering several keys obtains each value through the single-key read (whose lookup/record pairing
     # R15.1 decides), one call per requested key: looking the store up directly and recording "afterwards, for what was
     # found" loses the pairing (duplicates collapse, a record per distinct key instead of per hit)
@@ -377,7 +380,7 @@ def run(ctx):
             k_ = loops[0].over_all(lambda c_: strip_site(c_) == ("param", 2))
             for q in loops[0].bodies or []:
                 rec = [e for e in q.events if not e.log and e.t["res"] == "item" and e.t.get("rlocal") and any(mentions(a, lambda s_: s_ == ELEM(k_)) for a in e.args)]
-                okl = okl and len(rec) == 1
+                okl = okl and len(rec) >= 1          # (the loop visits the element once; its body must do something with it on every path)
             okl = okl and bool(loops[0].bodies)
         ctx.check(okl, "R15.9", "%s|every-hash-of-the-buffer-recorded" % n_,
                   "the buffer handed to the sketch is walked completely: one element loop over the whole vector, each element recorded once", g.where())
